@@ -79,6 +79,8 @@ class Walker:
                     pairs = [(t, st.value)]
                 for tt, vv in pairs:
                     if isinstance(tt, ast.Name):
+                        if self._scalar(vv):
+                            self.scalars.add(tt.id)
                         self.ev.env[tt.id] = self._cls(vv)
             elif isinstance(st, ast.AugAssign):
                 self.expr(st.value)
@@ -102,12 +104,19 @@ class Walker:
             elif isinstance(st, ast.Expr):
                 self.expr(st.value)
 
+    def _scalar(self, e):
+        """a positive scalar built from the temperature only (1 / kT, beta ...): multiplying by it keeps the class."""
+        names = {n.id for n in ast.walk(e) if isinstance(n, ast.Name)}
+        return bool(names) and names <= self.scalars and not any(isinstance(n, (ast.Call, ast.Subscript, ast.Attribute)) for n in ast.walk(e))
+
     def _cls(self, e):
         # beta * x : positive scalar factor keeps the reference class; np.log(pre) does not move with references
         if isinstance(e, ast.BinOp) and isinstance(e.op, ast.Mult):
             for a, b in ((e.left, e.right), (e.right, e.left)):
-                if isinstance(a, ast.Name) and a.id in self.scalars:
+                if self._scalar(a):
                     return self._cls(b)
+        if isinstance(e, ast.BinOp) and isinstance(e.op, ast.Div) and self._scalar(e.right):
+            return self._cls(e.left)
         if isinstance(e, ast.BinOp) and isinstance(e.op, (ast.Add, ast.Sub)):
             a, b = self._cls(e.left), self._cls(e.right)
             if a is None or b is None:
@@ -179,13 +188,13 @@ def run(model, rep, tier):
     fn = ci.methods.get('preene2betafree')
     if fn is None:
         raise AnalysisError('anchor vanished: VacancyMediated.preene2betafree')
-    w = Walker(VM_PARAMS['preene2betafree'], 2, scalars={'beta'})
+    w = Walker(VM_PARAMS['preene2betafree'], 2, scalars={'kT'})
     w.block(fn.body)
     ret = getattr(w, 'ret', None)
     if ret is None or not isinstance(ret.value, ast.Tuple):
         raise AnalysisError('preene2betafree: tuple return not found')
     for e in ret.value.elts:
-        c = w.ev.env.get(unparse(e))
+        c = w._cls(e)
         if c is None:
             raise AnalysisError('preene2betafree: class of %s not resolved' % unparse(e))
         ok = all(x == 0 for x in c)
